@@ -11,7 +11,8 @@ engine ties to the real `badgerWAL` *and* whose specification `Mem` it ties to e
 `MemoryStorage`, transcript-exact) to that specification:
 
 * `store_refines_memorystorage` — for every history of legal calls (batches of consecutive entries
-  with a hard state, local snapshot + compaction, reopen of the database) that `MemoryStorage`
+  with a hard state, local snapshot + compaction, installation of a received snapshot, reopen of
+  the database) that `MemoryStorage`
   accepts from its initial state, the Badger-backed store accepts it, keeps its representation
   invariant `WF` (consecutive keys, dummy = snapshot entry, every cached value equal to what a
   scan returns) and stands for exactly the `MemoryStorage` state (`abs`);
@@ -20,8 +21,9 @@ engine ties to the real `badgerWAL` *and* whose specification `Mem` it ties to e
 * `reopen_changes_nothing` — dropping all caches (`NewBadgerWAL` over the same database) changes
   neither the abstract state nor the invariant.
 
-Not covered by a theorem (tied by the `wal` engine only): `Save` with a *received* snapshot,
-`DeleteGroup`, and the size-limited `Entries` read.
+Not covered by a theorem (tied by the `wal` engine only): `DeleteGroup`, a `Save` that carries a
+snapshot *and* entries (etcd/raft does not produce one), batches that start below the first index,
+and the size-limited `Entries` read.
 -/
 namespace Anndb.C06
 open Anndb.Wal Anndb.WalKeys Anndb.Codec
@@ -158,12 +160,14 @@ def demoHistory : List WOp :=
   [.append ⟨1, 1, 0⟩ [⟨1, 1, 10, 1⟩, ⟨2, 1, 11, 1⟩, ⟨3, 1, 12, 1⟩],
    .append ⟨2, 2, 1⟩ [⟨3, 2, 13, 1⟩, ⟨4, 2, 14, 1⟩],
    .compact 2 7 99, .reopen,
-   .append ⟨2, 2, 4⟩ [⟨5, 2, 15, 1⟩]]
+   .append ⟨2, 2, 4⟩ [⟨5, 2, 15, 1⟩],
+   .install ⟨3, 0, 9⟩ ⟨9, 3, 5, 7⟩, .reopen,
+   .append ⟨3, 0, 9⟩ [⟨10, 3, 16, 1⟩]]
 
-example : (runM Mem.init demoHistory).map (fun m => (m.firstIndex, m.lastIndex, m.snap.index)) = some (3, 5, 2) := by
+example : (runM Mem.init demoHistory).map (fun m => (m.firstIndex, m.lastIndex, m.snap.index)) = some (10, 10, 9) := by
   decide
 
-example : (runW Wal.fresh demoHistory).map (fun w => w.disk.ents.map (·.index)) = some [2, 3, 4, 5] := by
+example : (runW Wal.fresh demoHistory).map (fun w => w.disk.ents.map (·.index)) = some [9, 10] := by
   decide
 
 /-- the key layout in the code is the one modelled (regenerated facts) -/
